@@ -3,4 +3,5 @@ From PV Require Import Lib.Bytes Model.Settle.
 (* oracle/common.ml mentions the types z and nat *)
 Definition z_for_common : Z := 0%Z.
 Definition nat_for_common : nat := 0%nat.
-Extraction "C16_model.ml" trim_file fix_header header_ok isort text_pass z_for_common nat_for_common.
+Extraction "C16_model.ml" trim_file fix_header header_ok isort text_pass
+  check_cvsid plist_pass plist_line_fix gz_offered used_by z_for_common nat_for_common.
